@@ -96,3 +96,67 @@ def expected(snap, affector, target, m, x):
     if target is None:
         return affects_local(fits, items, a, m, x, ty[x[2]])
     return affects_projected(fits, a, m, by_id[target], x, ty[x[2]])
+
+
+# ---- resistance (Eos.World.resistOf) and fleet boosts (Eos.World.boostTargets); same caveat as above
+def carrier(fits, items, x):
+    """`_solsys_carrier` as the specification's `resistOf` has it: item tuple or None."""
+    by_id = {i[0]: i for i in items}
+
+    def ship_of(fid):
+        f = _fit(fits, fid)
+        return None if f is None or f[1] is None else by_id.get(f[1])
+    k = x[1]
+    if k in (1, 8, 9):
+        return x
+    if k in (2, 3, 4, 5, 6, 7):
+        return ship_of(x[3])
+    if k in (14, 15):
+        p = by_id.get(x[5]) if x[5] is not None else None
+        if p is None:
+            return None
+        if p[1] in (8, 9):
+            return p
+        if p[1] in (4, 5, 6):
+            return ship_of(p[3])
+    return None
+
+
+def resist_expected(snap, effect, affector, target, m, x):
+    """None (not selected) or the resistance factor (Fraction) the specification applies."""
+    import fractions
+    fits, items, types = snap
+    by_id = {i[0]: i for i in items}
+    ty = {t[0]: t for t in types}
+    if not affects_projected(fits, by_id[affector], m, by_id[target], x, ty[x[2]]):
+        return None
+    rattr = effect[3]
+    if rattr is None or rattr == 0:
+        return fractions.Fraction(1)
+    c = carrier(fits, items, x)
+    if c is None:
+        return fractions.Fraction(1)
+    for a, v in ty[c[2]][4]:
+        if a == rattr:
+            return fractions.Fraction(v)
+    return fractions.Fraction(1)
+
+
+def boost_targets(fits, items, fid):
+    by_id = {i[0]: i for i in items}
+    f = _fit(fits, fid)
+    fl = None if f is None else f[3]
+    out = []
+    for g in fits:
+        if g[0] == fid or (fl is not None and g[3] == fl):
+            if g[1] is not None and g[1] in by_id:
+                out.append(by_id[g[1]])
+    return out
+
+
+def boost_expected(snap, affector, m, x):
+    fits, items, types = snap
+    by_id = {i[0]: i for i in items}
+    ty = {t[0]: t for t in types}
+    a = by_id[affector]
+    return any(affects_projected(fits, a, m, tg, x, ty[x[2]]) for tg in boost_targets(fits, items, a[3]))
